@@ -1,22 +1,13 @@
 #!/bin/bash
 # usage: tools/matrix.sh [dir-with-patches (default: seeded)] [pattern]
-# For every <dir>/*/patch.diff: apply to $VERIF_REPO (default /repo; use a snapshot for background runs),
-# run every property's quick check, print the ids that report (exit 1), undo the patch.
+# For every <dir>/*/patch.diff: apply to $VERIF_REPO (default /repo), run every property's quick
+# check, print the ids (and rules) that report (exit 1; "rule?" = via an undecided obligation),
+# undo the patch. Do not touch the tree while this runs.
 cd "$(dirname "$0")/.." || exit 2
-REPO="${VERIF_REPO:-/repo}"; export VERIF_REPO="$REPO"
+REPO="${VERIF_REPO:-/repo}"
 DIR="${1:-seeded}"; PAT="${2:-*}"
 [ -x bin/rdpgwlint ] || sh ./setup.sh >/dev/null
-IDS=$(python3 -c "import json;print(' '.join(c['property_id'] for c in json.load(open('MANIFEST.json'))['checks']))")
 for d in $DIR/$PAT/; do
   p="$d/patch.diff"; [ -f "$p" ] || continue
-  case "$p" in /*) ap="$p";; *) ap="$PWD/$p";; esac
-  (cd "$REPO" && git apply "$ap") 2>/dev/null || { echo "$(basename $d): APPLY-FAILED"; continue; }
-  hit=""; und=""
-  for id in $IDS; do
-    out=$(bin/rdpgwlint -property $id -tier quick -repo "$REPO" 2>&1); rc=$?
-    if [ $rc -eq 1 ]; then hit="$hit $id"; echo "$out" | grep -q "\] undecided:" && und="$und $id"; fi
-    [ $rc -ge 2 ] && hit="$hit $id(ERR)"
-  done
-  (cd "$REPO" && git apply -R "$ap") || echo "UNDO-FAILED $d"
-  echo "$(basename $d): reported_by:$hit | via-undecided:$und"
+  echo "$(basename $d): $(tools/matrix_one.sh "$p" "$REPO" 2>/dev/null)"
 done
